@@ -70,6 +70,7 @@ def main (args : List String) : IO UInt32 := do
   | ["layout"] => eachLine cmdLayout; return 0
   | ["mut"] => eachLine cmdMut; return 0
   | ["cfg"] => eachLine cmdCfg; return 0
+  | ["cfg-covers"] => eachLine cmdCfgCovers; return 0
   | ["core"] => eachLine (cmdCore 20000); return 0
   | ["rt"] => eachLineState ({} : RtState) stepRt; return 0
   | ["depgraph"] => eachLine cmdDepGraph; return 0
@@ -78,6 +79,7 @@ def main (args : List String) : IO UInt32 := do
   | ["diag-sort"] => eachLine cmdDiagSort; return 0
   | ["is-exported"] => eachLine cmdIsExported; return 0
   | ["borrow"] => eachLine cmdBorrow; return 0
+  | ["retlife"] => eachLine cmdRetLife; return 0
   | ["qbe-row"] => eachLine cmdQbeRow; return 0
   | ["wasm-row"] => eachLine cmdWasmRow; return 0
   | ["sched"] => eachLine cmdSched; return 0
